@@ -275,6 +275,7 @@ func checkC20(c *Check) {
 		r3.Decide(okc == 2, "alias_trie.copyNode|predicates kept", fi.Decl.Pos(), "children map and recursive copies get (key_eq, key_less)", "copyNode does not hand (key_eq, key_less) in this order to the children map and the recursive copies")
 	}
 
+	checkAliasExists(c, c.Rule("R20.6", "the duplicate test answers 'exists' for every alias stored under the pattern, of a function or of a Kombination", 4))
 	checkTrieNodeIndices(c, c.Rule("R20.5", "the trie search gives its key generator a different index for every visited node", 1))
 
 	// ---------------- R20.4 ----------------
@@ -794,4 +795,54 @@ func checkTrieNodeIndices(c *Check, r *Rule) {
 		bad = append(bad, fmt.Sprintf("the search over the model trie yields %d values, expected the 4 values on the matched paths", len(sl.Elems)))
 	}
 	r.Decide(len(bad) == 0, key, fi.Decl.Pos(), "root, a and b are visited under three different indices; all four values are found", strings.Join(bad, "; ")+": the key generator of alias() keeps one saved position per index, so candidates of a sibling branch are read from the wrong tokens and dropped (a shorter alias or none is chosen)")
+}
+
+// R20.6: the duplicate test itself. aliasExists reports "exists" exactly when the trie holds an alias under the pattern - a
+// function's alias or a Kombination's alias alike - and "does not exist" for an inner node that carries none and for a
+// miss. Decided by evaluating it (engine E2) against a scripted Contains.
+func checkAliasExists(c *Check, r *Rule) {
+	L := c.L
+	fi := L.Fn("src/parser.(*parser).aliasExists")
+	if fi == nil {
+		r.Und("parser.(*parser).aliasExists", token.NoPos, "function not found")
+		return
+	}
+	type scen struct {
+		name  string
+		found bool
+		value Val
+		want  bool
+	}
+	scens := []scen{
+		{"the pattern is a function's alias", true, newObj("ast.FuncAlias"), true},
+		{"the pattern is a Kombination's alias", true, newObj("ast.StructAlias"), true},
+		{"the pattern is only a prefix of longer aliases (node without a value)", true, NilV{}, false},
+		{"the pattern is not in the trie", false, NilV{}, false},
+	}
+	for _, sc := range scens {
+		in := NewInterp(L)
+		in.Models["alias_trie.(*Trie).Contains"] = func(in *Interp, pkg *packages.Package, call *ast.CallExpr, recv Val, args []Val) (Val, bool) {
+			return TupleV{boolV(sc.found), sc.value}, true
+		}
+		in.Models["parser.toPointerSlice"] = func(in *Interp, pkg *packages.Package, call *ast.CallExpr, recv Val, args []Val) (Val, bool) {
+			return SliceV{}, true
+		}
+		p := newObj("parser.parser")
+		p.set("aliases", newObj("alias_trie.Trie"))
+		toks := SliceV{Elems: []Val{newObj("token.Token"), newObj("token.Token")}}
+		var res Val
+		runs, _ := in.RunAll(4, func() { res = in.CallFunc(fi, p, []Val{toks}) })
+		key := "parser.(*parser).aliasExists|" + sc.name
+		tv, ok := res.(TupleV)
+		if runs != 1 || !ok || len(tv) < 1 {
+			r.Und(key, fi.Decl.Pos(), fmt.Sprintf("not evaluated (%v)", res))
+			continue
+		}
+		got, known := truth(tv[0])
+		if !known {
+			r.Und(key, fi.Decl.Pos(), fmt.Sprintf("the answer is not a known boolean (%v)", tv[0]))
+			continue
+		}
+		r.Decide(got == sc.want, key, fi.Decl.Pos(), fmt.Sprintf("answers %v", sc.want), fmt.Sprintf("answers %v where %v is required: a second declaration with the same pattern is accepted without a diagnostic and replaces the first in the trie, which can then no longer be called (or a free pattern is refused)", got, sc.want))
+	}
 }
